@@ -364,7 +364,7 @@ def main(ctx, replay):
     info = C.prologue(ctx)
     ctx.notes.append("t_prologue=%.1f" % ctx.wall())
     if info["hbin"] is None:
-        raise RuntimeError("harness build failed:\n" + info.get("go_log", ""))
+        raise C.HarnessBuildFailed(info.get("go_log", ""))
     cov = C.proof_coverage(info, "C09")
     assumptions = [
         "one request = one atomic step: clock reading, tolerance test and nonce-cache step happen under the cache mutex (nonceCache.admit); evidenced by the clock-race schedule, not proved about the Go runtime",
